@@ -3,6 +3,7 @@
    node = L:level:namehex | C:level:namehex:exprhex | I:srchex | D:width-or-minus:hex,hex,... | S:hex | A:hex | @:hex
         | B:namehex:bits:labelalign:addr:size:addr_end:outp:fill    (each field exprhex or `-`; fill 0|1)   = #bankdef
         | K:namehex                                                                                        = #bank
+        | T:exprhex                                                                                        = #assert
    mode: (none) = Resolver2.assemble2
          `cert` TAB sized-symbols(name=hex:size|-; name=bool:0|1; name=str:hex:enc; name=void:-; name=failed:- ...) TAB banks TAB bits
                 = Spec.Certificate2.cert_check2 on a claimed result
@@ -40,6 +41,7 @@ let () = iter_lines (fun line ->
         PBankdef (text_of_hex n, { bf_bits = ope bits; bf_labelalign = ope la; bf_addr = ope addr; bf_size = ope size;
                                    bf_addr_end = ope aend; bf_outp = ope outp; bf_fill = (fill = "1") })
       | ["K"; n] -> PBank (text_of_hex n)
+      | ["T"; h] -> PAssert (pe h)
       | _ -> bad := true; PBank [] in
     let ns = if nodes = "" then [] else List.map node (String.split_on_char ';' nodes) in
     (match parse_defs (text_of_hex rules) with
